@@ -36,8 +36,9 @@ type row struct {
 }
 
 const (
-	regChannel   = "verif:reg"
-	unregChannel = "verif:unreg"
+	regChannel       = "verif:reg"
+	legacyRegChannel = "VerifReg"
+	unregChannel     = "verif:unreg"
 )
 
 // per-player event log
@@ -103,14 +104,28 @@ func body(r row, n int) []byte {
 	return b
 }
 
-func channelOf(r row) string {
+// channelOf: pre-1.13 clients and their backends use the legacy channel names.
+func channelOf(r row, protoV int) string {
+	old := protoV < 393
 	switch r.Kind {
 	case "register":
+		if old {
+			return "REGISTER"
+		}
 		return "minecraft:register"
 	case "unregister":
+		if old {
+			return "UNREGISTER"
+		}
 		return "minecraft:unregister"
 	case "registered":
+		if old {
+			return legacyRegChannel
+		}
 		return regChannel
+	}
+	if old {
+		return "VerifUnreg"
 	}
 	return unregChannel
 }
@@ -158,7 +173,7 @@ func (x *conn) do(r row) tracefmt.Rec {
 	x.n++
 	pl := x.w.get(x.name)
 	data := body(r, x.n)
-	ch := channelOf(r)
+	ch := channelOf(r, x.c.Proto)
 	fromClient := r.Phase == "clientPlay" || r.Phase == "clientConfig"
 	pl.mu.Lock()
 	pl.action = r.Action
@@ -238,7 +253,7 @@ func TestRows(t *testing.T) {
 	if err != nil {
 		t.Fatal(err)
 	}
-	r.P.ChannelRegistrar().Register(id)
+	r.P.ChannelRegistrar().Register(id, message.NewLegacyChannelIdentifier(legacyRegChannel))
 	rt := rig.NewRouter(map[string]*rig.SBackend{"a": sb})
 	tw, err := tracefmt.Create("trace.ndjson")
 	if err != nil {
@@ -253,15 +268,13 @@ func TestRows(t *testing.T) {
 	abortWhy := []string{}
 	perPhase := map[string]int{}
 	var samples []any
-	for ci := 0; ci < 2*clients; ci++ {
+	protos := []int{rig.P1_20_3, rig.P1_20, rig.P1_12_2, rig.P1_8}
+	for ci := 0; ci < len(protos)*clients; ci++ {
 		ci := ci
 		wg.Add(1)
 		go func() {
 			defer wg.Done()
-			protoV := rig.P1_20_3
-			if ci%2 == 1 {
-				protoV = rig.P1_20
-			}
+			protoV := protos[ci%len(protos)]
 			name := fmt.Sprintf("e%d_%d", seed%1000, ci)
 			fail := func(why string) {
 				mu.Lock()
@@ -303,7 +316,7 @@ func TestRows(t *testing.T) {
 				mu.Unlock()
 			}()
 			// rows are dealt to the clients of a protocol round-robin, rotated by the seed
-			mine := func(i int) bool { return (i+int(seed))%clients == ci/2 }
+			mine := func(i int) bool { return (i+int(seed))%clients == ci/len(protos) }
 			if protoV >= rig.P1_20_2 {
 				if !bc.AwaitLoginAck(long) {
 					fail("no login ack")
@@ -322,10 +335,6 @@ func TestRows(t *testing.T) {
 				}
 				_ = c.AckFinishConfig()
 				bc.AwaitFinishAck(1, long)
-				// the proxy installs the handler that understands JoinGame only after it wrote
-				// this acknowledgement; give it a moment (a JoinGame that overtakes it is
-				// forwarded raw and the player never joins: such a client is aborted below)
-				time.Sleep(30 * time.Millisecond)
 			}
 			_ = bc.SendJoinGame()
 			if !c.AwaitJoinGame(1, long) {
@@ -336,7 +345,7 @@ func TestRows(t *testing.T) {
 			if !rig.WaitFor(long, func() bool { return p != nil && p.CurrentServer() != nil }) {
 				why := fmt.Sprintf("never connected (player found: %v, client closed: %v)", p != nil, c.Closed())
 				for _, rc := range c.Log() {
-					if rc.State == "play" && rc.ID == rig.CBPlayDisconnectID(protoV) {
+					if rc.State == "play" && rc.ID == rig.CBPlayDisconnectID(protoV) && protoV >= 393 {
 						why += fmt.Sprintf(" disconnect: %q", rc.Data)
 					}
 				}
@@ -351,10 +360,11 @@ func TestRows(t *testing.T) {
 			// registrations) must have arrived before rows are observed: a play packet the
 			// proxy does not know is forwarded as is, after everything written before it
 			want := (&mcwire.Buf{}).VarInt(900000 + ci).B
-			_ = c.WritePacket(0x00, want)
+			bid := rig.UnknownPlayPacketID(protoV)
+			_ = c.WritePacket(bid, want)
 			if !bc.Wait(long, func(l []rig.Recv, closed bool) bool {
 				for _, r := range l {
-					if r.State == "play" && r.ID == 0x00 && string(r.Data) == string(want) {
+					if r.State == "play" && r.ID == bid && string(r.Data) == string(want) {
 						return true
 					}
 				}
